@@ -279,7 +279,7 @@ def run(ctx):
             run_case(ctx, {"kind": "casevariant", "args": a, "kwargs": kw, "atts": atts})
         for kw in ({"bold": "yes"}, {"bold": 0}, {"bold": 1}, {"italic": None}):
             run_case(ctx, {"kind": "nonbool-style", "kwargs": kw})
-    for _ in range(ctx.share(3000 if ctx.quick else 100000)):
+    for _ in range(ctx.share(3000 if ctx.quick else 400000)):
         a = obs.rand_atts(rng)
         runs = [["".join(rng.choice("abc") for _ in range(rng.randint(0, 3))), dict(a)]
                 for _ in range(rng.randint(1, 3))]
